@@ -19,7 +19,7 @@ RULE = (
 )
 ASSUMPTIONS = ["integer PD alphabet (condition numbers <= ~1e2)", "the routine taken is identified from the verbose_linalg log ('Running CG' => iterative tolerance, otherwise direct)"]
 CHUNK = 12
-CASE_TIMEOUT = 600
+CASE_TIMEOUT = 3600
 DTS = {"f64": torch.float64, "f32": torch.float32}
 
 import linear_operator  # noqa: E402
